@@ -10,6 +10,12 @@ package spdxexp
 // fresh(x) (allocated by this activation), allocated(x), arr(s) (backing array
 // of a slice), arrs(ss) (backing arrays of all elements of a slice of slices).
 // Tags in [..] name the properties of /verif/properties.jsonl a clause serves.
+// Other tags steer the prover and never add an assumption: scoped (the fact is
+// visible only to obligations of the same properties), grp=<name> (a finer
+// partition inside a property), reveal=<regexp> (a definition that is opaque
+// outside the functions named), thorough (lemma run in the thorough tier only),
+// induct / abstract=<p|q> (lemma proved by induction, predicates abstracted),
+// lemmaonly (lemma never handed to a function's proof).
 
 // ---------------------------------------------------------------------------
 // Representation invariant of nodes: every node object that exists is
